@@ -50,6 +50,7 @@ ASSUMPTIONS = [
 ]
 TRUSTED = ["serde_yaml 0.9 / serde_json / toml 0.8 / serde derive / serde-value: text -> document tree",
            "humantime::parse_duration (refresh_rate), TimeTrigger::new arithmetic (C16), the OS file system"]
+RELEASE_TOO = True          # the cases also run through the release-profile harness (see ./check)
 EXHAUSTIVE = {"quick": False, "thorough": False}
 IMPL_TIMEOUT = 600
 KNOWN = "F-C16-degenerate-interval"
